@@ -92,8 +92,8 @@ def run_case(case, ci):
                 ca = t.containing_ast_by_id.get(id(n))
                 tables[i] = {"node_ok": got is n, "cs": idx.get(id(cs)) if cs is not None else None,
                              "ps": idx.get(id(ps)) if ps is not None else None, "ca": idx.get(id(ca)) if ca is not None else None}
-                if isinstance(n, ast.stmt):
-                    # API history: queries with an exclusion set come first, the plain queries after them
+                if isinstance(n, ast.stmt) or cs is not None:
+                    # every node a handler can be given, not only statements.  API history: queries with an exclusion set come first, the plain queries after them
                     tables[i]["outer_excl_try"] = bool(pyc.BaseTracer.is_outer_stmt(n, exclude_outer_stmt_types={ast.Try}))
                     tables[i]["outer_excl_if_with"] = bool(pyc.BaseTracer.is_outer_stmt(n, exclude_outer_stmt_types={ast.If, ast.With}))
                     tables[i]["outer"] = bool(pyc.BaseTracer.is_outer_stmt(n))
